@@ -222,6 +222,24 @@ PROPS = {
              "public wrappers (Iter, Keys, Values, IterMut, ValuesMut, IntoIter, Drain) are observed through the "
              "correspondence only; their Lean model is the shared RawIter. Set/table wrappers: via C06/C07 ties.",
     ),
+    "C20": dict(
+        module="Hb.Props.C20",
+        ties=[("scen", "serde", 250, 8000), ("t1", {})],
+        backends=["sse2", "portable"],
+        design="§7 C20",
+        text="Lean theorems: reservation_bounded (for every claimed length: cautious <= 4096, hence <= 8192 buckets / capacity "
+             "7168 / bytes <= layout(8192), nothing allocated for hint 0/None) over all element sizes and both widths; last_wins "
+             "and roundtrip on the abstract map, instantiated for the table model through the C01 refinement (last_wins_table, "
+             "roundtrip_table); error_midway_ledger / error_at_value_ledger / deserialize_in_place: every object built before "
+             "the failing position is dropped exactly once and the block freed. Tie: the real Serialize/Deserialize impls driven "
+             "by a hand-rolled Serializer and a scripted Deserializer (claimed lengths 0..usize::MAX incl. capacity_to_buckets "
+             "boundaries, duplicates, failure at every key/value position) into HashMap/HashSet with the tape allocator; full "
+             "state + allocator events compared with the model; direct oracles: last-wins reference, ownership ledger, capacity "
+             "bound before the first element; `cautious` regenerated from source (T1).",
+        note="Trusted: Lean kernel, axioms propext/Classical.choice/Quot.sound; harness (scripted serde front-end), hooks, protocol. "
+             "Table-level statements are conditional on the call returning (lawful hasher, non-refusing allocator, non-panicking "
+             "destructors); unwinding paths of the visitors are modelled but not proved. serde's own data formats are out of scope.",
+    ),
 }
 
 
